@@ -1,9 +1,133 @@
 import Lean.Data.Json
-/-! Line-protocol handler for property C13 (model side of the correspondence). -/
+import SpoxModel.Model.Types
+import SpoxModel.Generated.Dtypes
+/-! Line-protocol handler for C13: runs the model's `subtype`, `Shape.le`, `broadcast`, `toOnnx`,
+    `fromOnnx`, `compat`, `npBroadcast` on batches of types / shapes (with the generated table).
+
+    Encoding: dimension = number | string (named) | null (anonymous); shape = null | [dims];
+    type = ["any"] | ["t", classId, shape] | ["s", type] | ["o", type];
+    proto = ["empty"] | ["t", code, null | [number | string (dim_param) | null (unset)]] | ["s", p] | ["o", p]. -/
 namespace Drv.C13
-open Lean
+open Lean Types
+
+def tbl : DtypeTable := Generated.Dtypes.table
+
+def parseDim (j : Json) : Except String Natural :=
+  match j with
+  | .null => pure (.unk "")
+  | .str s => pure (.unk s)
+  | .num _ => do let n ← fromJson? (α := Nat) j; pure (.const n)
+  | _ => throw "bad dim"
+
+def parseShape (j : Json) : Except String Shape :=
+  match j with
+  | .null => pure none
+  | .arr a => do let ds ← a.toList.mapM parseDim; pure (some ds)
+  | _ => throw "bad shape"
+
+partial def parseTy (j : Json) : Except String Ty := do
+  let a ← fromJson? (α := Array Json) j
+  match a.toList with
+  | [.str "any"] => pure .any
+  | [.str "t", e, s] => do
+      let e ← fromJson? (α := Nat) e
+      let s ← parseShape s
+      pure (.tensor e s)
+  | [.str "s", t] => do pure (.seq (← parseTy t))
+  | [.str "o", t] => do pure (.opt (← parseTy t))
+  | _ => throw "bad type"
+
+def parseDimP (j : Json) : Except String DimP :=
+  match j with
+  | .null => pure .unset
+  | .str s => pure (.param s)
+  | .num _ => do let n ← fromJson? (α := Nat) j; pure (.value n)
+  | _ => throw "bad proto dim"
+
+partial def parseProto (j : Json) : Except String TypeProto := do
+  let a ← fromJson? (α := Array Json) j
+  match a.toList with
+  | [.str "empty"] => pure .empty
+  | [.str "t", c, s] => do
+      let c ← fromJson? (α := Nat) c
+      match s with
+      | .null => pure (.tensor c none)
+      | .arr ds => do pure (.tensor c (some (← ds.toList.mapM parseDimP)))
+      | _ => throw "bad proto shape"
+  | [.str "s", t] => do pure (.seq (← parseProto t))
+  | [.str "o", t] => do pure (.opt (← parseProto t))
+  | _ => throw "bad proto"
+
+def dimJ : Natural → Json
+  | .const n => toJson n
+  | .unk l => if l = "" then Json.null else Json.str l
+
+def shapeJ : Shape → Json
+  | none => Json.null
+  | some ds => Json.arr (ds.map dimJ).toArray
+
+def tyJ : Ty → Json
+  | .any => Json.arr #[Json.str "any"]
+  | .tensor e s => Json.arr #[Json.str "t", toJson e, shapeJ s]
+  | .seq t => Json.arr #[Json.str "s", tyJ t]
+  | .opt t => Json.arr #[Json.str "o", tyJ t]
+
+def dimPJ : DimP → Json
+  | .value n => toJson n
+  | .param s => Json.str s
+  | .unset => Json.null
+
+def protoJ : TypeProto → Json
+  | .empty => Json.arr #[Json.str "empty"]
+  | .tensor c sh => Json.arr #[Json.str "t", toJson c,
+      match sh with | none => Json.null | some ds => Json.arr (ds.map dimPJ).toArray]
+  | .seq t => Json.arr #[Json.str "s", protoJ t]
+  | .opt t => Json.arr #[Json.str "o", protoJ t]
+
+def optJ (f : α → Json) : Option α → Json
+  | none => Json.null
+  | some x => f x
+
+def bits (l : List Bool) : String := String.ofList (l.map (fun b => if b then '1' else '0'))
+
+def matrix (xs : List α) (f : α → α → Bool) : String :=
+  bits (xs.flatMap (fun a => xs.map (fun b => f a b)))
+
+def handleE (req : Json) : Except String Json := do
+  let op ← req.getObjValAs? String "op"
+  match op with
+  | "sub" =>
+      let ts ← (← req.getObjValAs? (Array Json) "types").toList.mapM parseTy
+      pure (Json.mkObj [("sub", matrix ts (subtype tbl)), ("compat", matrix ts compat)])
+  | "le" =>
+      let ss ← (← req.getObjValAs? (Array Json) "shapes").toList.mapM parseShape
+      pure (Json.mkObj [("le", matrix ss Shape.le)])
+  | "bc" =>
+      let ss ← (← req.getObjValAs? (Array Json) "shapes").toList.mapM parseShape
+      let out := ss.flatMap (fun a => ss.map (fun b =>
+        match broadcast a b with
+        | none => Json.str "ShapeError"
+        | some c => Json.arr #[shapeJ c]))
+      pure (Json.mkObj [("bc", Json.arr out.toArray)])
+  | "rt" =>
+      let ts ← (← req.getObjValAs? (Array Json) "types").toList.mapM parseTy
+      let out := ts.map (fun t =>
+        let p := toOnnx tbl t
+        Json.mkObj [("p", optJ protoJ p), ("t", optJ tyJ (p.bind (fromOnnx tbl)))])
+      pure (Json.mkObj [("rt", Json.arr out.toArray)])
+  | "from" =>
+      let ps ← (← req.getObjValAs? (Array Json) "protos").toList.mapM parseProto
+      pure (Json.mkObj [("from", Json.arr (ps.map (fun p => optJ tyJ (fromOnnx tbl p))).toArray)])
+  | "np" =>
+      let ss ← (← req.getObjValAs? (Array (Array Nat)) "shapes").toList.mapM (fun a => pure a.toList)
+      let out := ss.flatMap (fun a => ss.map (fun b => optJ (fun (l : List Nat) => toJson l) (npBroadcast a b)))
+      pure (Json.mkObj [("np", Json.arr out.toArray)])
+  | _ => throw "unknown op"
 
 /-- One request (a JSON value) in, one response (a JSON value) out. -/
-def handle (_req : Json) : Json := Json.mkObj [("error", "unimplemented")]
+def handle (req : Json) : Json :=
+  match handleE req with
+  | .ok j => j
+  | .error e => Json.mkObj [("error", e)]
 
 end Drv.C13
